@@ -14,6 +14,7 @@ import (
 	cfgapi "github.com/containers/nri-plugins/pkg/apis/config/v1alpha1"
 	"github.com/containers/nri-plugins/pkg/utils/cpuset"
 	"github.com/containers/nri-plugins/pkg/verif/mc"
+	"github.com/containers/nri-plugins/pkg/verif/sysgen"
 )
 
 type VerifPoolT = tapolicy.VerifPool
@@ -199,7 +200,18 @@ var propC03 = &propDef{id: "C03", oracles: []oracleFn{oracleC03}, scenarios: taS
 // C05 quantifies over configuration updates too - accepted and rejected ones (a rejected update is rolled back by re-applying
 // the old configuration, which may move containers again): the reconfiguration scenarios of C13 are part of its driver.
 var propC05 = &propDef{id: "C05", oracles: []oracleFn{oracleC05}, scenarios: func(thorough bool) []*scenario {
-	return append(bothScenarios(thorough), c13Scenarios(thorough)...)
+	out := append(bothScenarios(thorough), c13Scenarios(thorough)...)
+	// a container created again under the same name while the plugin still holds the previous instance as live (its stop
+	// was never delivered): the handler releases the stale instance and admits the new one in ONE request, and both steps
+	// re-pin the bystanders - still at most one update per container in the reply
+	one := &sysgen.Spec{Name: "1s1n4c2t", Packages: 1, NodesPerDie: 1, CoresPerNode: 4, Threads: 2}
+	ta := &scenario{name: "ta/recreate-live/1pool/G2-B500-B200", policy: polTA, machine: one, cfgs: []cfgSpec{taCfg("rsv750m")}, pods: pods(tG2, tB500, tB200),
+		menu: menu{stop: true, recreateLive: true}, depth: 5, maxInc: 2}
+	ta.prefix = runAll(3)
+	bl := &scenario{name: "bl/recreate-live/dyn", policy: polBalloons, machine: machine8(), cfgs: []cfgSpec{blCfg("dyn", dynShareDefs())},
+		pods: []podSpec{nsPod("a", "dyn1", tG2, nil), nsPod("b", "share", tB500, nil), nsPod("c", "dyn1", tG1, nil)}, menu: menu{stop: true, recreateLive: true}, depth: 5, maxInc: 2}
+	bl.prefix = runAll(3)
+	return append(out, ta, bl)
 }}
 
 func bothScenarios(thorough bool) []*scenario {
